@@ -636,4 +636,49 @@ mod verif_in_packet_stream {
         kani::cover!(la == 3 && lb == 3, "two three-byte packets");
         core::mem::forget(tx);
     }
+
+    //@ h name=rx_split_length props=C03,C16,C04 tier=quick cap=big to=1800 mem=30
+    //@ claim: when a read ends INSIDE a multi-byte Remaining Length (header byte plus one to three length bytes, all with the continuation bit set), poll_next does not emit anything, does not panic, does not report end-of-stream, and returns Pending only after having polled the reader again in the same call (so that the wakeup for the rest of the length field is registered)
+    //@ bounds: header byte arbitrary; 1..=3 length bytes with the continuation bit set and arbitrary low bits, delivered in one read (and, _1_1: the header alone first); the reader is Pending afterwards; 2 polls
+    //@ assume: RxPacket::try_decode stubbed by a recorder (never reached here)
+    //@ funcs: RxPacketStream::poll_next, VarSizeInt::try_from(&[u8])
+    #[kani::proof]
+    #[kani::unwind(9)]
+    #[kani::stub(<crate::codec::RxPacket as crate::core::utils::TryDecode>::try_decode, decode_recorder8)]
+    pub(crate) fn rx_split_length() {
+        let h0: u8 = kani::any();
+        let (l1, l2, l3): (u8, u8, u8) = (kani::any(), kani::any(), kani::any());
+        let nlen: usize = kani::any();
+        kani::assume(nlen >= 1 && nlen <= 3);
+        let header_alone_first: bool = kani::any();
+        let mut data = [0u8; SN];
+        data[0] = h0;
+        data[1] = l1 | 0x80;
+        data[2] = l2 | 0x80;
+        data[3] = l3 | 0x80;
+        N_FRAMES.store(0, Ordering::Relaxed);
+        let cuts = if header_alone_first { [1, nlen, 0, 0] } else { [1 + nlen, 0, 0, 0] };
+        let mock = ScriptRx { data, len: 1 + nlen, pos: 0, cuts, k: 0, registered: false };
+        let mut stream = RxPacketStream::from(mock);
+        let mut cx = noop_cx();
+        let mut i = 0;
+        while i < 2 {
+            stream.stream.registered = false;
+            match Pin::new(&mut stream).poll_next(&mut cx) {
+                Poll::Pending => {
+                    assert!(stream.stream.registered, "Pending only after the reader returned Pending in this poll (wakeup registered)");
+                    assert!(stream.stream.pos == 1 + nlen, "every byte the transport had was consumed before going Pending");
+                }
+                Poll::Ready(None) => panic!("end-of-stream although the transport is still open"),
+                Poll::Ready(Some(r)) => {
+                    core::mem::forget(r);
+                    panic!("nothing can be emitted before the Remaining Length is complete");
+                }
+            }
+            i += 1;
+        }
+        kani::cover!(nlen == 3 && !header_alone_first, "header and three continuation bytes in one read");
+        kani::cover!(nlen == 1 && header_alone_first, "header alone, then one continuation byte");
+        core::mem::forget(stream);
+    }
 }
